@@ -536,6 +536,12 @@ impl<T: Copy + Debug> Container<T> {
         let on_success = |_owner_id, index| {
             let v = current_element_generation_count.get();
 
+            // the owner died inside `Self::add()` before it published the element, the slot
+            // is already marked as empty
+            if !Self::contains_data(v) {
+                return;
+            }
+
             // Race against: `Self::add()`
             // * index is already released and could be acquired by `Self::add()`
             // * `Self::add()` increments counter to % 2 == 1 when finished populating data
